@@ -1,4 +1,4 @@
-import Gimli.Lemmas.Line
+import Gimli.Lemmas.LineSeq
 /-!
 # C04 — Line-number rows equal the DWARF state machine; sequences are consistent
 
@@ -211,5 +211,79 @@ example : (rows hdrVliw progV).map (fun r => (r.address, r.opIndex, r.line, r.en
      (328, 0, 3, true)] := by decide
 example : run hdrVliw bytesV = (rows hdrVliw progV).map (fun r => Ev.row (toRow r)) :=
   rows_refine hdrVliw (by decide) bytesV progV (by decide) (by decide)
+
+/-! ## "Splitting a program into sequences and resuming any sequence yields exactly the rows a
+straight run yields for it, and each sequence's reported address bounds are its first and end
+addresses" -/
+
+/-- **Sequences and resume, every input.** Whenever `sequences()` succeeds (for any header, any
+bytes): the straight run `rows()` is exactly the concatenation, in order, of what
+`resume_from(s)` yields for each reported sequence `s`, followed by trailing rows that do not end
+a sequence (and belong to none); resuming a sequence yields only rows (no error), exactly one of
+them — the last — with `end_sequence`; and `s.end` is that row's address. -/
+theorem sequences_resume (h : Params) (bs : Bytes) (seqs : List Seq)
+    (hs : sequences h bs = .ok seqs) :
+    ∃ tail : List Row,
+      run h bs = seqs.flatMap (resume h) ++ tail.map Ev.row ∧
+      (∀ r ∈ tail, r.endSequence = false) ∧
+      ∀ s ∈ seqs, ∃ (rows : List Row) (last : Row),
+        resume h s = rows.map Ev.row ++ [Ev.row last] ∧ last.endSequence = true ∧
+        (∀ r ∈ rows, r.endSequence = false) ∧ s.end = last.address := by
+  obtain ⟨tail, h1, h2, h3⟩ := sequences_spec h bs seqs hs
+  refine ⟨tail, h1, h2, fun s hs' => ?_⟩
+  obtain ⟨rows, last, a, b, c, d, _⟩ := h3 s hs'
+  exact ⟨rows, last, a, b, c, d⟩
+
+/-- **Reported start** — partial: `start` is the address of the first row of the sequence whenever
+the sequence has a row before its end row.
+
+Full statement (FALSE for the code as it is, finding C04-2): without the hypothesis on the length;
+a sequence that consists of its end row only is reported with `start = 0`
+(`sequences_start_counterexample`). -/
+theorem sequences_start_partial (h : Params) (bs : Bytes) (seqs : List Seq)
+    (hs : sequences h bs = .ok seqs) (s : Seq) (hmem : s ∈ seqs) (hlen : 2 ≤ (resume h s).length) :
+    ∃ first : Row, (resume h s).head? = some (Ev.row first) ∧ s.start = first.address := by
+  obtain ⟨_, _, _, h3⟩ := sequences_spec h bs seqs hs
+  obtain ⟨rows, last, a, _, _, _, e⟩ := h3 s hmem
+  cases rows with
+  | nil => rw [a] at hlen; simp at hlen
+  | cons r rs => exact ⟨r, by rw [a]; simp, e⟩
+
+/-- and in every case `start ≤ end` fails only through finding C04-1: here is the exact content of
+`start` for the end-row-only sequence. **Finding C04-2, pinned**: `set_address 0x1000;
+end_sequence` is reported as the sequence `[0, 0x1000)` although its only row is at 0x1000. -/
+theorem sequences_start_counterexample :
+    sequences hdr4 [0, 9, 2, 0, 0x10, 0, 0, 0, 0, 0, 0,  0, 1, 1] =
+      .ok [{ start := 0, «end» := 0x1000,
+             instructions := [0, 9, 2, 0, 0x10, 0, 0, 0, 0, 0, 0,  0, 1, 1] }] := by
+  decide
+
+/-- non-vacuity: a program with two sequences and trailing rows -/
+example : (sequences hdr4 (bytes4 ++ [1, 1])).map (fun ss => ss.map (fun s => (s.start, s.end))) =
+    .ok [(0x1000, 0x1128), (0x2000, 0x2000)] := by decide
+
+/-! ## termination / totality of everything modelled -/
+
+/-- **`next_row()` terminates and the decoder never panics**: on every input the trace contains
+no `stuck` (fuel exhausted / decoder panic) — the fuel `length + 1` always suffices because every
+instruction consumes at least one byte. -/
+theorem run_total (h : Params) (bs : Bytes) : Ev.stuck ∉ trace h bs ∧ Ev.stuck ∉ run h bs := by
+  have h1 : Ev.stuck ∉ trace h bs := traceLoop_not_stuck h _ _ bs (by omega)
+  exact ⟨h1, fun hm => h1 (List.mem_filter.mp hm).1⟩
+
+/-- `LineInstruction::parse` returns an instruction or an error on every input and header, and a
+successful parse consumes at least one byte and does not depend on what follows the instruction -/
+theorem decode_total (h : Params) (input : Bytes) :
+    (parseInstr h input).Normal ∧
+    ∀ ins rest, parseInstr h input = .ok (ins, rest) →
+      rest.length < input.length ∧
+      ∃ pre, input = pre ++ rest ∧ ∀ rest', parseInstr h (pre ++ rest') = .ok (ins, rest') := by
+  refine ⟨parseInstr_normal h input, fun ins rest hp => ⟨parseInstr_consumes h input ins rest hp, ?_⟩⟩
+  obtain ⟨pre, a, _, b⟩ := parseInstr_local h input ins rest hp
+  exact ⟨pre, a, b⟩
+
+/-- `sequences()` returns the list or an error on every input (never panics, always terminates) -/
+theorem sequences_total (h : Params) (bs : Bytes) : (sequences h bs).Normal :=
+  seqLoop_normal h _ _ bs bs none [] (by omega)
 
 end Gimli.Props.C04
